@@ -98,9 +98,12 @@ for _n in sorted(SHAPES):
 
 
 def prewarm(name):
+  """Runs the harness natively a few times first: every conversion / cache fill it needs
+  happens before the analysis, so that all explored paths execute the same code."""
   fn = globals()[name]
+  k = len(inspect.signature(fn).parameters)
   for v in ((0, 0, 0, 0, 0), (9, 1, 2, 3, 4), (-1, 5, 0, 7, 2)):
-    fn(*v)
+    fn(*v[:k])
 
 
 def shared_cell(v: int, a: int, w: int) -> bool:
